@@ -82,6 +82,7 @@ def calls_in(node, name):
 
 
 WHERE = {}
+EXTRA = {}     # obligations outside the flags record
 
 
 def _w(flag, rel, node, note=""):
@@ -413,6 +414,47 @@ def translate():
             stores = True
     F["f_compile_args_local"] = not stores
     _w("f_compile_args_local", rel, where_args)
+
+    # ---------------- no state outside the objects on the pulse-shape path ----------------
+    # generate_pulse_shape and every module-level helper it reaches: no caching decorator, no global statement,
+    # no mutable default argument, no write into a module-level container
+    fn = _find(t, rel, "GateCompiler", "generate_pulse_shape")
+    mod_funcs = {n.name: n for n in t.body if isinstance(n, ast.FunctionDef)}
+    mod_names = set()
+    for n in t.body:
+        if isinstance(n, ast.Assign):
+            for x in n.targets:
+                if isinstance(x, ast.Name):
+                    mod_names.add(x.id)
+    todo, seen = [fn], []
+    while todo:
+        f = todo.pop()
+        if f in seen:
+            continue
+        seen.append(f)
+        for n in ast.walk(f):
+            if isinstance(n, ast.Call) and isinstance(n.func, ast.Name) and n.func.id in mod_funcs:
+                todo.append(mod_funcs[n.func.id])
+    stateless, why = True, None
+    for f in seen:
+        for dec in f.decorator_list:
+            if u(dec).split("(")[0].split(".")[-1] not in ("classmethod", "staticmethod"):
+                stateless, why = False, "%s:%d decorator %s on %s" % (rel, dec.lineno, u(dec), f.name)
+        for dflt in list(f.args.defaults) + [k for k in f.args.kw_defaults if k is not None]:
+            if isinstance(dflt, (ast.List, ast.Dict, ast.Set, ast.Call)):
+                stateless, why = False, "%s:%d mutable default argument of %s" % (rel, dflt.lineno, f.name)
+        for n in ast.walk(f):
+            if isinstance(n, (ast.Global, ast.Nonlocal)):
+                stateless, why = False, "%s:%d global statement in %s" % (rel, n.lineno, f.name)
+            if isinstance(n, (ast.Assign, ast.AugAssign)):
+                for x in (n.targets if isinstance(n, ast.Assign) else [n.target]):
+                    if isinstance(x, ast.Subscript) and isinstance(x.value, ast.Name) and x.value.id in mod_names:
+                        stateless, why = False, "%s:%d write into module-level %s" % (rel, n.lineno, x.value.id)
+            if isinstance(n, ast.Call) and isinstance(n.func, ast.Attribute) and isinstance(n.func.value, ast.Name) \
+                    and n.func.value.id in mod_names and n.func.attr in ("append", "update", "setdefault", "pop", "clear", "extend", "insert", "add"):
+                stateless, why = False, "%s:%d %s on module-level %s" % (rel, n.lineno, n.func.attr, n.func.value.id)
+    EXTRA["src_shape_path_stateless"] = stateless
+    WHERE["src_shape_path_stateless"] = why or "%s:%d generate_pulse_shape -> %s" % (rel, fn.lineno, ", ".join(f.name for f in seen[1:]) or "-")
     return F
 
 
@@ -429,6 +471,9 @@ def emit(F):
     for k in ORDER:
         lines.append("    %s   (* %s *)" % ("true" if F[k] else "false", k))
     lines[-1] += "."
+    lines += ["", "(* state outside the objects (module level / caches) is outside the heap model: its absence on the pulse-shape",
+              "   path GateCompiler.generate_pulse_shape -> _normalized_window is extracted as a separate obligation *)",
+              "Definition src_shape_path_stateless : bool := %s." % ("true" if EXTRA.get("src_shape_path_stateless") else "false")]
     return "\n".join(lines) + "\n"
 
 
@@ -442,3 +487,5 @@ if __name__ == "__main__":
     F = generate()
     for k in ORDER:
         print("%-22s %-5s %s" % (k, F[k], WHERE.get(k, "?")))
+    for k, v in EXTRA.items():
+        print("%-22s %-5s %s" % (k, v, WHERE.get(k, "?")))
